@@ -260,7 +260,7 @@ PROPS = {
                 "6..2^40, durations 1..1000, caps 1..1000, field values missing/non-numeric/integers incl. i64 extremes and >2^53/floats incl. 0.1, 1e300, subnormal, inf, NaN; "
                 "non-trivial = more than one event (label not 'trivial') StreamAlphaNode (sliding and tumbling) under the injected clock: 6000 (quick) histories of clock advances and 2..12 events with timestamps around the clock (in order, late within the window, too old, in the future), foreign streams / types mixed in, caps 1,2,3,1000; observed per event: accepted?, buffered ids",
         "level_text": "Proved for every window state, event, duration and cap: after record no retained event is older than the duration relative to the recorded event; the retained events are "
-                "exactly the newest min(cap,n) young events; the recorded event is retained; tumbling windowing places events only in their aligned interval and keeps one window per interval. "
+                "exactly the newest min(cap,n) young events; the recorded event is retained; tumbling windowing places events only in their aligned interval and keeps one window per interval; for whole streams (Proofs/WindowPlacementProofs.v, WindowedStream::new, any arrival order, any positive duration, any cap) every window of the result is the window of an aligned interval that received an event and holds exactly that interval's events in arrival order cut to the newest cap, starts are unique, every event's interval has its window - hence (cap not reached) each event lies in exactly one window, the aligned one. "
                 "Aggregates (count/sum/average/min/max as IEEE-754 binary64 folds over exactly the retained events, bit-for-bit, via the axiom-free SpecFloat) and exactly-once placement are the "
                 "Coq-defined monitor Window.ok evaluated on the implementation's observations after every event. StreamAlphaNode (Model/StreamAlpha.v, after repairs 8577f39 / d22a712; Session windows not modelled): compared per event with the code under the injected clock, and the Coq monitor checks on the observations: accepted iff inside the window of the clock, the buffer is a subsequence of the accepted events, holds nothing outside the window and (cap not reached) misses nothing inside it.",
         "level_note": "Trusted: Coq kernel; model of window.rs (after the record fix) and of WindowedStream::new (tumbling); Base/Float.v bit-level encoding of binary64 and Coq.Floats.SpecFloat as the "
